@@ -944,6 +944,12 @@ def g_bddinclall(rng):
 
 
 def g_bddtd(rng):
+    if rng.random() < 0.6:
+        # the converted automaton meets a natively loaded one (intersection, union, inclusion in both directions)
+        A, B, _ = rand_pair(rng, nmax=4)
+        A = TA(list(dict.fromkeys(A.rules)), sorted(set(A.finals)))
+        B = TA(list(dict.fromkeys(B.rules)), sorted(set(B.finals)))
+        return f"bddtd {A.tok()} {B.tok()}"
     A = rand_ta(rng, nmax=5, dials=dict(dead_child=0.3, final_norule=0.2))
     return f"bddtd {A.tok()}"
 
